@@ -87,6 +87,13 @@ func c08(e *Env) {
 		FaultFree:      true,
 		TracedPrepares: true,
 	}
+	// tuning knob (a quarter of the runs): few stream ids per backend connection, so that a handful
+	// of clients with a few requests in flight use them all up while UNPREPARED rounds are going on
+	// (a request that finds no free id on a connection moves on to the next host)
+	cfg.MaxStreams = []int16{0, 0, 0, 4}[c.Choose("c08maxstreams", 4)]
+	if cfg.MaxStreams > 0 {
+		p.MaxInflight = 3 + c.Choose("inflight-few-streams", 6)
+	}
 	f := newFwd(e, p, cfg)
 	if !f.bootOK() || !f.connectClients() {
 		return
@@ -303,6 +310,29 @@ func c08(e *Env) {
 	}
 	f.pending = nil
 	drained := w.RunUntil(f.allAnswered, 10*time.Minute)
+	if (shape == 0 || shape == 1) && drained && !w.Stopped() && c.Choose("burst-after-forgetting", 6) == 5 {
+		// every node has lost its statements (a rolling restart) and an application that did not
+		// notice sends a burst: dozens of EXECUTEs per backend connection are answered UNPREPARED
+		// before the first re-preparation is answered. All of them are repaired and answered.
+		if ups := f.usablePreps(); len(ups) > 0 {
+			pi := ups[c.Choose("burst-stmt", len(ups))]
+			if cl := pi.by; cl.Connected() {
+				for _, n := range w.Nodes {
+					n.Prepared = map[string]string{}
+				}
+				save := w.Cfg.WPeer
+				w.Cfg.WPeer = 0
+				for i := 40 * len(w.Nodes) * p.NumConns; i > 0; i-- {
+					tok := w.NewToken()
+					cl.Send("execute", tok, world.ExecMsg(pi.id, pi.rmid, tok, primitive.ConsistencyLevelOne), nil)
+				}
+				w.Quiesce()
+				w.Cfg.WPeer = save
+				drained = w.RunUntil(f.allAnswered, 10*time.Minute)
+				e.Res.Stats["probe.c08.burst_of_executes_after_every_node_forgot"]++
+			}
+		}
+	}
 	e.Res.Sample = fmt.Sprintf("shape=%s stmts/client=%d execs/client=%d %s", []string{"plain", "restarts", "late-joiners", "re-prepare-failures"}[shape], nStmts, perClient, f.sample())
 	e.Res.Shape = fmt.Sprintf("s%d h%d c%d cl%d", shape, p.Hosts, p.NumConns, p.Clients)
 	if w.Stopped() {
@@ -349,6 +379,12 @@ func c08(e *Env) {
 					continue
 				}
 				if em, isErr := replyMsg(r).(message.Error); isErr {
+					if cfg.MaxStreams > 0 && strings.Contains(em.GetErrorMessage(), "no more hosts") {
+						// with four stream ids per connection "every host was tried and had no free id" is a
+						// legitimate outcome of the load, not of the prepared cache
+						e.Res.Stats["probe.c08.no_free_stream_id_on_any_host"]++
+						continue
+					}
 					w.Violate("c08-success", "execute-failed-although-statements-cached("+ri.kind+")", fmt.Sprintf("%s was answered with %v although every statement it uses is in the prepared cache, every re-preparation succeeded and no connection was lost; attempts %s", r, em, traceOf(w, r.Token)))
 					return
 				}
